@@ -35,12 +35,16 @@ type assignment struct {
 	eps   []epMode
 	limit int
 	op    string // login | tgs
+	fam   string // "" for the basic enumeration, else the widened family the case belongs to
 }
 
 func (a assignment) String() string {
 	var s []string
 	for _, e := range a.eps {
 		s = append(s, e.udp+"+"+e.tcp)
+	}
+	if a.fam != "" {
+		return fmt.Sprintf("%s/limit=%d/%s/%s", a.fam, a.limit, a.op, strings.Join(s, ","))
 	}
 	return fmt.Sprintf("limit=%d/%s/%s", a.limit, a.op, strings.Join(s, ","))
 }
@@ -115,6 +119,11 @@ func TestProp(t *testing.T) {
 	r.Note("widened families, judged by the same outcome sets (seeded samples, no silent sides): kdc-name = KDCs configured by host name, the name having 1-3 loopback addresses (A and AAAA records from the package's own name server behind net.DefaultResolver) with the TCP service listening on some of them and the UDP service on all or some; " +
 		"dns-srv = no kdc lines, dns_lookup_kdc = true, the realm's _kerberos._udp / _kerberos._tcp SRV record sets name different hosts or ports per transport or exist for one transport only; " +
 		"reply-size = AS-REP / TGS-REP / KRB-ERROR padded to every boundary size and a sample of sizes up to 4096 bytes over UDP and up to 70 000 bytes over TCP")
+	r.Note("limit-values = the endpoint behaviours crossed with the other values of udp_preference_limit that krb5.conf accepts: 0, 2, 3, the size of the request the client sends and its neighbours, 1465, and a seeded sample up to 32700; " +
+		"kpasswd = Client.ChangePasswd with two realms configured (each with its own KDC and kpasswd_server lines, default_realm the client's realm or the other one), every password-change server side behaving as answers / refuses / closes early (silent in the thorough tier)")
+	r.Assume("every udp_preference_limit other than 1 permits both transports (0 is smaller than every request: TCP first, UDP second); the permitted outcomes do not depend on which transport is tried first")
+	r.Assume("the password change is an exchange with the servers configured for the CLIENT's realm: it must succeed when one of them answers on every permitted transport (whatever the others and the servers of other realms do) and fail when none answers on a permitted transport; " +
+		"whether it has to fall back to the other transport when a server answers on one of two permitted transports only is not determined by the statement (it names the KDC exchange): counted as observe_kpasswd_server_answers_on_one_of_two_transports_only_*, not judged")
 	r.Assume("a KDC configured by a host name answers over TCP if its service listens on at least one address of the name (connecting to a name tries its addresses in turn); whether a UDP service that answers on only some addresses of its name must be found is not determined by the statement: such cases are judged under both readings and counted as observe_udp_service_on_some_addresses_of_the_name_*")
 	r.Assume("a KDC located with DNS is configured for exactly the transports whose SRV record set names it, at the port given there; SRV priorities and weights are not judged")
 	r.Assume("a reply of up to 4096 bytes in one UDP datagram (MIT kdc_max_dgram_reply_size) is a correct answer; larger replies are only sent over TCP")
@@ -202,6 +211,14 @@ func TestProp(t *testing.T) {
 		as = append(as, a)
 	}
 	r.Count("assignments_1kdc", int64(n1))
+	// the other values of udp_preference_limit (limits_test.go)
+	var perr error
+	if limitReqLen, perr = probeRequestSize(k, kt); perr != nil || limitReqLen < 64 {
+		r.Inconclusive(fmt.Sprintf("cannot measure the size of the client's AS-REQ: %d bytes, %v", limitReqLen, perr))
+		return
+	}
+	r.Count("limit_values_probe_request_size", int64(limitReqLen))
+	as = append(as, limitCases(all, limitReqLen)...)
 
 	// the widened families (wide_test.go): KDCs behind host names with several addresses, KDCs published with DNS SRV records, replies of every size
 	dns, err := startDNS()
@@ -270,6 +287,26 @@ func TestProp(t *testing.T) {
 			runWide(r, env, c, ck, false, report(ck, func(viol func(fp, what string, d map[string]any)) { runWide(r, env, c, ck, true, viol) }))
 		}(c, ck)
 	}
+	// the password-change exchange (kpasswd_test.go)
+	kpw, err := newKpWorld()
+	if err != nil {
+		r.Inconclusive("password-change family: " + err.Error())
+		return
+	}
+	defer kpw.close()
+	for _, c := range kpCases() {
+		ck := c.String()
+		if !r.Mine(ck) {
+			continue
+		}
+		wg.Add(1)
+		wsem <- struct{}{}
+		go func(c kpCase, ck string) {
+			defer wg.Done()
+			defer func() { <-wsem }()
+			runKp(r, kpw, c, ck, false, report(ck, func(viol func(fp, what string, d map[string]any)) { runKp(r, kpw, c, ck, true, viol) }))
+		}(c, ck)
+	}
 	// none of these waits for a silent endpoint: they are done in a moment, and the name lookups are not competing with the big batch
 	wg.Wait()
 	for _, a := range as {
@@ -326,6 +363,8 @@ func TestProp(t *testing.T) {
 	r.Require("tcp_first_udp_fallback_success", 5)
 	r.Require("udp_toobig_tcp_success", 5)
 	// the widened families
+	limitRequires(r)
+	kpRequires(r)
 	r.Count("name_server_queries", dns.queries.Load())
 	r.Require("kdc_name_outcome_success", 60)
 	r.Require("kdc_name_outcome_failure", 15)
@@ -412,7 +451,10 @@ func runCase(r0 *vh.Run, k *simkdc.KDC, kt *keytab.Keytab, a assignment, ck stri
 	}
 	d := map[string]any{"case": ck, "assignment": a.String(), "result": fmt.Sprint(opErr), "attempts_observed": att}
 	okS, okK, okF, why := allowed(a, 0)
-	judge(r, verdictIn{a: a, okS: okS, okK: okK, okF: okF, why: why, opErr: opErr, pnc: pnc, pv: pv, pw: pw, total: total, msgs: 1}, ck, d, viol)
+	outcome, held := judge(r, verdictIn{a: a, okS: okS, okK: okK, okF: okF, why: why, opErr: opErr, pnc: pnc, pv: pv, pw: pw, total: total, msgs: 1, fam: a.fam}, ck, d, viol)
+	if a.fam == famLimit && held {
+		limitCoverage(r, a, outcome)
+	}
 }
 
 // execOp runs the operation of a case against the configuration cfg. For the TGS operation the login must succeed first: it
@@ -524,12 +566,7 @@ func judge(r recorder, v verdictIn, ck string, d map[string]any, viol func(fp, w
 	}
 	r.Inc(pfx + "outcome_" + outcome)
 	d["permitted"] = fmt.Sprintf("success=%v krb-error-6=%v failure=%v (%s)", okS, okK, okF, why)
-	first := "udp-first"
-	if a.limit == 1 {
-		first = "tcp-only"
-	} else if a.limit == 10 {
-		first = "tcp-first"
-	}
+	first := firstOf(a.limit)
 	switch outcome {
 	case "success":
 		if !okS {
@@ -590,6 +627,21 @@ func judge(r recorder, v verdictIn, ck string, d map[string]any, viol func(fp, w
 	}
 	r.SampleKind(outcome+"-"+first, 1, d)
 	return outcome, true
+}
+
+// firstOf names the transport order a udp_preference_limit stands for (a label of fingerprints and samples only; the permitted
+// outcomes do not depend on the order): 1 is TCP only, a limit below the size of any Kerberos request is TCP first, MIT's default
+// 1465 and above is UDP first for every request the package sends; in between the order depends on the size of the request.
+func firstOf(limit int) string {
+	switch {
+	case limit == 1:
+		return "tcp-only"
+	case limit < 64:
+		return "tcp-first"
+	case limit >= 1465:
+		return "udp-first"
+	}
+	return "limit-near-request-size"
 }
 
 // recorder forwards to the run unless the case is a quiet re-run.
